@@ -22,3 +22,35 @@ func VerifC03_persist() {
 	verifrt.Assert(w.early == 0, "C03.persist.notahead")
 	verifrt.Reach("C03.persist.end")
 }
+
+// VerifC03_toolong: the client is so far behind that the server answers differenceTooLong with a
+// pts somewhere inside the log; the library persists that pts (a jump over updates it will never
+// deliver). The request that follows either succeeds or fails with a transport error. Claim:
+// however getDifference returns, every log entry at or below the last persisted pts was handed
+// to the handler or the jump was reported through OnTooLong; and when it returns nil the entries
+// above the jump were delivered.
+func VerifC03_toolong() {
+	w := c02scenario()
+	verifrt.Assume(w.s.pts.State() == w.p0) // nothing pushed: the client is behind by the whole log
+	w.jump = 1 + verifrt.Fork("jump", len(w.log))
+	w.failNext = verifrt.NondetBool("failnext")
+	w.cut = len(w.log)
+	err := w.s.getDifference(context.Background(), "verif")
+	last := w.p0
+	if len(w.writes) > 0 {
+		last = w.writes[len(w.writes)-1]
+	}
+	for i, e := range w.log {
+		if e.pos <= last {
+			verifrt.Assert(w.delivered[i] || w.tooLong, "C03.toolong.reported")
+		}
+		if err == nil && e.pos > w.p0+w.jump {
+			verifrt.Assert(w.delivered[i], "C03.toolong.rest")
+		}
+	}
+	verifrt.Assert(last >= w.p0+w.jump, "C03.toolong.persisted")
+	if err != nil {
+		verifrt.Reach("C03.toolong.failed")
+	}
+	verifrt.Reach("C03.toolong.end")
+}
